@@ -1,0 +1,179 @@
+// Verification hooks. Compiled only with `--cfg strand_verif`.
+//
+// Nothing in this module is reachable from the library unless the guard is on
+// and a tape has been loaded by the verification harness; with empty tapes
+// every hooked function behaves exactly as without the hooks.
+#![allow(missing_docs)]
+
+use std::cell::RefCell;
+use std::collections::VecDeque;
+use std::sync::atomic::{AtomicU64, Ordering};
+use std::sync::RwLock;
+
+use crate::context::Ctx;
+use crate::elgamal::{Ciphertext, PrivateKey, PublicKey};
+use crate::keymaker::Keymaker;
+use crate::util::StrandError;
+use crate::zkp::{ChaumPedersen, Schnorr};
+
+thread_local! {
+    // value-level tape: big-endian magnitude of the next exponents to return
+    static EXP_TAPE: RefCell<VecDeque<Vec<u8>>> = RefCell::new(VecDeque::new());
+    // value-level tape for gen_permutation
+    static PERM_TAPE: RefCell<VecDeque<Vec<usize>>> = RefCell::new(VecDeque::new());
+    // byte-level tape served by StrandRng instead of the OS source
+    static BYTE_TAPE: RefCell<Option<VecDeque<u8>>> = RefCell::new(None);
+}
+
+/// Number of calls to StrandRng methods / bytes requested (all threads).
+pub static RNG_CALLS: AtomicU64 = AtomicU64::new(0);
+pub static RNG_BYTES: AtomicU64 = AtomicU64::new(0);
+/// Number of value-level draws (rnd_exp and friends), served from tape or not.
+pub static EXP_DRAWS: AtomicU64 = AtomicU64::new(0);
+
+pub fn load_exp_tape(values: Vec<Vec<u8>>) {
+    EXP_TAPE.with(|t| *t.borrow_mut() = values.into_iter().collect());
+}
+pub fn exp_tape_len() -> usize {
+    EXP_TAPE.with(|t| t.borrow().len())
+}
+pub fn take_exp_bytes() -> Option<Vec<u8>> {
+    EXP_DRAWS.fetch_add(1, Ordering::SeqCst);
+    EXP_TAPE.with(|t| t.borrow_mut().pop_front())
+}
+pub fn load_perm_tape(values: Vec<Vec<usize>>) {
+    PERM_TAPE.with(|t| *t.borrow_mut() = values.into_iter().collect());
+}
+pub fn take_perm() -> Option<Vec<usize>> {
+    PERM_TAPE.with(|t| t.borrow_mut().pop_front())
+}
+pub fn load_byte_tape(bytes: Option<Vec<u8>>) {
+    BYTE_TAPE.with(|t| *t.borrow_mut() = bytes.map(|b| b.into_iter().collect()));
+}
+pub fn byte_tape_len() -> Option<usize> {
+    BYTE_TAPE.with(|t| t.borrow().as_ref().map(|q| q.len()))
+}
+/// Serves `dest` from the byte tape if one is loaded. Returns false (and
+/// leaves `dest` untouched) when no tape is loaded. Panics when a loaded tape
+/// runs dry: that is a harness error, never library behaviour.
+pub fn rng_fill(dest: &mut [u8]) -> bool {
+    RNG_CALLS.fetch_add(1, Ordering::SeqCst);
+    RNG_BYTES.fetch_add(dest.len() as u64, Ordering::SeqCst);
+    BYTE_TAPE.with(|t| {
+        let mut t = t.borrow_mut();
+        match t.as_mut() {
+            None => false,
+            Some(q) => {
+                for d in dest.iter_mut() {
+                    *d = q.pop_front().expect("verif byte tape exhausted");
+                }
+                true
+            }
+        }
+    })
+}
+
+/// Run-time parameter registry for the `PVerif` parameter sets of the
+/// multiplicative backends: decimal (p, q, g, cofactor).
+pub static PVERIF: RwLock<Option<(String, String, String, String)>> =
+    RwLock::new(None);
+pub fn set_pverif(p: &str, q: &str, g: &str, cofactor: &str) {
+    *PVERIF.write().unwrap() = Some((
+        p.to_string(),
+        q.to_string(),
+        g.to_string(),
+        cofactor.to_string(),
+    ));
+}
+pub fn get_pverif() -> (String, String, String, String) {
+    PVERIF
+        .read()
+        .unwrap()
+        .clone()
+        .expect("PVerif parameters not registered")
+}
+
+/// Public wrappers around the crate-private Keymaker.
+pub struct KeymakerV<C: Ctx>(Keymaker<C>);
+impl<C: Ctx> KeymakerV<C> {
+    pub fn from_sk(sk: PrivateKey<C>, ctx: &C) -> Self {
+        KeymakerV(Keymaker::from_sk(sk, ctx))
+    }
+    pub fn gen(ctx: &C) -> Self {
+        KeymakerV(Keymaker::gen(ctx))
+    }
+    pub fn share(
+        &self,
+        label: &[u8],
+    ) -> Result<(PublicKey<C>, Schnorr<C>), StrandError> {
+        self.0.share(label)
+    }
+    pub fn verify_share(
+        ctx: &C,
+        pk: &PublicKey<C>,
+        proof: &Schnorr<C>,
+        label: &[u8],
+    ) -> bool {
+        Keymaker::verify_share(ctx, pk, proof, label)
+    }
+    pub fn combine_pks(ctx: &C, pks: Vec<PublicKey<C>>) -> PublicKey<C> {
+        Keymaker::combine_pks(ctx, pks)
+    }
+    pub fn decryption_factor(
+        &self,
+        c: &Ciphertext<C>,
+        label: &[u8],
+    ) -> Result<(C::E, ChaumPedersen<C>), StrandError> {
+        self.0.decryption_factor(c, label)
+    }
+    #[allow(clippy::type_complexity)]
+    pub fn decryption_factor_many(
+        &self,
+        cs: &[Ciphertext<C>],
+        label: &[u8],
+    ) -> Result<(Vec<C::E>, Vec<ChaumPedersen<C>>), StrandError> {
+        self.0.decryption_factor_many(cs, label)
+    }
+    pub fn joint_dec(ctx: &C, decs: Vec<C::E>, c: &Ciphertext<C>) -> C::E {
+        Keymaker::joint_dec(ctx, decs, c)
+    }
+    pub fn joint_dec_many(
+        ctx: &C,
+        decs: &[Vec<C::E>],
+        cs: &[Ciphertext<C>],
+    ) -> Vec<C::E> {
+        Keymaker::joint_dec_many(ctx, decs, cs)
+    }
+    pub fn verify_decryption_factors(
+        ctx: &C,
+        pk_value: &C::E,
+        ciphertexts: &[Ciphertext<C>],
+        decs: &[C::E],
+        proofs: &[ChaumPedersen<C>],
+        label: &[u8],
+    ) -> Result<bool, StrandError> {
+        Keymaker::verify_decryption_factors(
+            ctx,
+            pk_value,
+            ciphertexts,
+            decs,
+            proofs,
+            label,
+        )
+    }
+}
+
+/// Accessors for the crate-private fields of the ElGamal key types.
+pub fn pk_element<C: Ctx>(pk: &PublicKey<C>) -> &C::E {
+    &pk.element
+}
+pub fn sk_value<C: Ctx>(sk: &PrivateKey<C>) -> &C::X {
+    &sk.value
+}
+pub fn sk_from_parts<C: Ctx>(value: C::X, pk_element: C::E, ctx: &C) -> PrivateKey<C> {
+    PrivateKey {
+        value,
+        pk_element,
+        ctx: ctx.clone(),
+    }
+}
